@@ -612,6 +612,8 @@ func execLad(f []string) vlib.Res {
 			return "other"
 		}
 		remote := remoteFor(0, "udp", false, n)
+		serveAge = time.Duration(atoiD(a["age"], 0)) * time.Millisecond
+		defer func() { serveAge = 0 }()
 		c0 := live.Stub.Calls.Load()
 		rc := serve(2, s.build('c', nil, nil), remote, "udp")
 		cc := live.Stub.Calls.Load() - c0
